@@ -901,6 +901,10 @@ def agrees(real, model, depth=0):
         if [lift(i) for i in real.index.tolist()] != list(model.labels):
             return False
         return all(agrees(real[c].tolist(), model.cols[c], depth + 1) for c in model.cols)
+    if isinstance(model, SArrayLite):
+        if isinstance(real, np.ndarray):
+            real = real.tolist()
+        return isinstance(real, (list, tuple)) and agrees(list(real), model.vals, depth + 1)
     if isinstance(model, SSeries):
         return isinstance(real, pd.Series) and agrees(real.tolist(), model.vals, depth + 1) and [lift(i) for i in real.index.tolist()] == list(model.labels)
     if isinstance(model, PdRecord):
